@@ -4,6 +4,7 @@ usage: python -m harness.drivers.d_heap IN.ndjson OUT.ndjson        IN: {"tid": 
 """
 import copy, gc, json, os, pickle, sys, weakref, collections, multiprocessing as mp
 
+from harness.drivers import pmap
 import optree
 from harness import vuniv as U
 from harness.drivers.d_tree import proj_path, proj_acc
@@ -280,8 +281,8 @@ def work(line):
 def main():
     inp, outp = sys.argv[1], sys.argv[2]
     lines = list(open(inp))
-    with mp.Pool(int(os.environ.get('VERIF_PROCS', '16'))) as pool, open(outp, 'w') as fh:
-        for res in pool.imap(work, lines, chunksize=16):
+    with open(outp, 'w') as fh:
+        for res in pmap(work, lines, init=None, chunksize=16):
             fh.write(res + '\n')
         fh.write(json.dumps(cycles_and_refcounts()) + '\n')
 
